@@ -115,7 +115,7 @@ theorem layer_sizes (m : FlowMsg) (d : Bytes) (pc : PC) :
     (14 ≤ d.length → (parseEthernet m d pc).size = 14) ∧ (4 ≤ d.length → (parse8021Q m d pc).size = 4) ∧
     (20 ≤ d.length → (parseIPv4 m d pc).size = 20) ∧ (40 ≤ d.length → (parseIPv6 m d pc).size = 40) ∧
     (8 ≤ d.length → (parseUDP m d pc).size = 8) ∧ (8 ≤ d.length → (parseIPv6HeaderFragment m d pc).size = 8) ∧
-    (20 ≤ d.length → (parseTCP m d pc).size = 4 * ((d.getD 12 0).toNat / 16)) := by
+    (20 ≤ d.length → (parseTCP m d pc).size = max 20 (4 * ((d.getD 12 0).toNat / 16))) := by
   refine ⟨?_, ?_, ?_, ?_, ?_, ?_, ?_⟩ <;> intro h
   · unfold parseEthernet; simp [Nat.not_lt.mpr h]
   · unfold parse8021Q; simp [Nat.not_lt.mpr h]
